@@ -436,6 +436,70 @@ pub fn run_child(spec: &crate::Spec) -> Report {
             }
         }
     }
+    // a macro used inside the argument of another macro (the inner one runs first, both send)
+    if set {
+        let g0 = ctx.global.sink.0.lock().unwrap().emits.len();
+        let r = panic::catch_unwind(|| {
+            cadence_macros::statsd_gauge!(
+                "outer",
+                {
+                    cadence_macros::statsd_count!("inner", 2i64, "where" => "argument");
+                    5u64
+                },
+                "t" => {
+                    cadence_macros::statsd_set!("inner.tag", 9i64);
+                    "v"
+                }
+            );
+        });
+        ctx.rep.evaluations += 1;
+        let emits: Vec<String> = ctx.global.sink.0.lock().unwrap().emits[g0..].to_vec();
+        if r.is_err() {
+            ctx.bad(&["C17", "C20"], "nested-macro-panicked", "a statsd_*! macro used inside the argument of another one panicked".into());
+        } else if emits.len() != 3 || !emits[0].contains("inner:2|c") || !emits[1].contains("inner.tag:9|s") || !emits[2].contains("outer:5|g") {
+            ctx.bad(&["C17"], "nested-macro-differs", format!("statsd_gauge!(\"outer\", {{ statsd_count!(\"inner\", 2, ..); 5 }}, \"t\" => {{ statsd_set!(\"inner.tag\", 9); \"v\" }}) handed the sink {:?}; the explicit calls send the two inner metrics and then the outer one", emits));
+        }
+        ctx.rep.flag("macro-nested-in-argument");
+    }
+    // threads other than the one that set the client; macros and lookups from a thread-local's
+    // destructor while the thread exits (after the thread has used a macro before)
+    if set {
+        struct AtExit;
+        impl Drop for AtExit {
+            fn drop(&mut self) {
+                cadence_macros::statsd_count!("at.exit", 1i64, "from" => "tls-destructor");
+                let _ = cadence_macros::get_global_default().map(|c| c.incr("at.exit.direct"));
+                if !cadence_macros::is_global_default_set() {
+                    panic!("not set inside a thread-local destructor");
+                }
+            }
+        }
+        thread_local! {
+            static EARLY: AtExit = const { AtExit };
+            static LATE: AtExit = const { AtExit };
+        }
+        let g0 = ctx.global.sink.0.lock().unwrap().emits.len();
+        eprintln!("CASE macros from thread-local destructors at thread exit");
+        let t = std::thread::spawn(|| {
+            // touch one thread-local before the first macro use and one after it: destructors run
+            // in reverse order of initialisation
+            EARLY.with(|_| {});
+            cadence_macros::statsd_count!("in.thread", 1i64);
+            LATE.with(|_| {});
+            cadence_macros::statsd_gauge!("in.thread.g", 2u64, "a" => "b");
+        });
+        let joined = t.join();
+        ctx.rep.evaluations += 1;
+        let emits: Vec<String> = ctx.global.sink.0.lock().unwrap().emits[g0..].to_vec();
+        let at_exit = emits.iter().filter(|e| e.contains("at.exit:1|c")).count();
+        let direct = emits.iter().filter(|e| e.contains("at.exit.direct:1|c")).count();
+        if joined.is_err() {
+            ctx.bad(&["C17", "C18", "C20"], "macro-in-tls-destructor-panicked", "a thread that uses the macros (and get_global_default) from thread-local destructors panicked while exiting".into());
+        } else if at_exit != 2 || direct != 2 {
+            ctx.bad(&["C17", "C18"], "macro-in-tls-destructor-differs", format!("macros / get_global_default used from two thread-local destructors at thread exit sent {:?}", emits));
+        }
+        ctx.rep.flag("macro-in-thread-local-destructor");
+    }
     if set {
         // the global client is still the first one and still set
         if !cadence_macros::is_global_default_set() || cadence_macros::get_global_default().is_err() {
